@@ -211,7 +211,11 @@ def run_misc(case):
 
 
 # ------------------------------------------------------------------------------------------------ thread spawn
-def spawn_module(with_export=True, imported=False):
+DECOY_SETS = [((), ()), ((b'wasi_thread_start_hook',), ()), ((), (b'wasi_thread_start2',)), ((b'wasi_thread_starts', b'wasi_thread_star'), ()),
+              ((b'_wasi_thread_start',), (b'wasi_thread_start ',)), ((b'Wasi_thread_start', b'wasi_thread_start.old'), (b'wasi_thread_start_',))]
+
+
+def spawn_module(with_export=True, imported=False, decoys=0):
     m = Module()
     T = m.type_index
     m.imports.append((b'wasi', b'thread-spawn', 'func', T((I32,), (I32,))))
@@ -233,14 +237,24 @@ def spawn_module(with_export=True, imported=False):
                 ('local.get', 3), ('i32.store', 2, 32768), ('local.get', 2), ('local.get', 4), ('i32.store', 2, 32772)], []),
             ('i32.const', 0), ('i32.const', 1), ('i32.atomic.rmw.add', 2, 4), ('drop',)]
     m.funcs.append(Func(T((I32, I32), ()), [I32, I32, I32], body))
+    # exports whose names merely resemble the start function's (longer, shorter, other case, around it in the export section):
+    # only the export named exactly wasi_thread_start is the start function; a look-alike counts its calls at address 12
+    before, after = DECOY_SETS[decoys]
+    for nm in before:
+        m.exports.append((nm, 'func', 4))
     if with_export:
         m.exports.append((b'wasi_thread_start', 'func', 1))
     else:
         m.exports.append((b'not_the_start', 'func', 1))
+    for nm in after:
+        m.exports.append((nm, 'func', 4))
     m.funcs.append(Func(T((I32,), (I32,)), [], [('local.get', 0), ('call', 0)]))
     m.exports.append((b'spawn', 'func', 2))
     m.funcs.append(Func(T((), (I32,)), [], [('i32.const', 0), ('i32.atomic.load', 2, 4)]))
     m.exports.append((b'count', 'func', 3))
+    m.funcs.append(Func(T((I32, I32), ()), [], [('i32.const', 0), ('i32.const', 1), ('i32.atomic.rmw.add', 2, 12), ('drop',)]))
+    m.funcs.append(Func(T((), (I32,)), [], [('i32.const', 0), ('i32.atomic.load', 2, 12)]))
+    m.exports.append((b'decoyruns', 'func', 5))
     wasm.validate(m)
     return m
 
@@ -248,33 +262,46 @@ def spawn_module(with_export=True, imported=False):
 _spawn_cache = {}
 
 
-def spawn_binary(with_export, tsan=False, imported=False):
-    key = (with_export, tsan, imported)
+def spawn_binary(with_export, tsan=False, imported=False, decoys=0):
+    """the harness binary for one module variant, built once per source tree and shared by all worker processes"""
+    import hashlib
+    key = (with_export, tsan, imported, decoys)
     if key in _spawn_cache and os.path.exists(_spawn_cache[key]):
         return _spawn_cache[key]
-    d = cexec.new_dir('sp')
-    tr = cexec.translate(wasm.encode(spawn_module(with_export, imported)), d, 'm', (), 'plain')
-    if tr.rc != 0:
-        raise cexec.InfraError('translating the thread-spawn module failed: %s' % tr.err[-300:])
-    cc = ['clang', '-O1', '-g', '-w'] + (['-fsanitize=thread'] if tsan else ['-fsanitize=address,undefined', '-fno-sanitize-recover=all'])
-    cmd = cc + (['-DVF_IMPORTED_MEMORY=1'] if imported else []) + W.WASI_DEFS + ['-I', os.path.join(cexec.REPO, 'w2c2'), '-I', os.path.join(cexec.REPO, 'futex'), '-I', d,
-                              os.path.join(cexec.VERIF, 'c', 'spawn_driver.c'), os.path.join(d, 'm.c'),
-                              os.path.join(cexec.REPO, 'wasi', 'wasi.c')] + \
-        [os.path.join(cexec.REPO, 'futex', f) for f in cexec.FUTEX_SRCS] + ['-o', os.path.join(d, 'spawn'), '-lpthread', '-lm']
-    r = cexec.run(cmd, cwd=d)
-    if r.returncode != 0:
-        raise cexec.InfraError('building the thread-spawn harness failed: %s' % r.stderr.decode(errors='replace')[-1500:])
-    _spawn_cache[key] = os.path.join(d, 'spawn')
-    return _spawn_cache[key]
+    drv = os.path.join(cexec.VERIF, 'c', 'spawn_driver.c')
+    wb = wasm.encode(spawn_module(with_export, imported, decoys))
+    tag = hashlib.sha256(open(drv, 'rb').read() + wb + repr(key).encode()).hexdigest()[:12]
+    out = os.path.join(cexec.cache_dir(), 'spawn-' + tag)
+    if not os.path.exists(out):
+        with cexec._Lock(out + '.lock'):
+            if not os.path.exists(out):
+                d = cexec.new_dir('sp')
+                try:
+                    tr = cexec.translate(wb, d, 'm', (), 'plain')
+                    if tr.rc != 0:
+                        raise cexec.InfraError('translating the thread-spawn module failed: %s' % tr.err[-300:])
+                    cc = ['clang', '-O1', '-g', '-w'] + (['-fsanitize=thread'] if tsan else ['-fsanitize=address,undefined', '-fno-sanitize-recover=all'])
+                    cmd = cc + (['-DVF_IMPORTED_MEMORY=1'] if imported else []) + W.WASI_DEFS + ['-I', os.path.join(cexec.REPO, 'w2c2'), '-I', os.path.join(cexec.REPO, 'futex'), '-I', d,
+                                                                                              drv, os.path.join(d, 'm.c'), os.path.join(cexec.REPO, 'wasi', 'wasi.c')] + \
+                        [os.path.join(cexec.REPO, 'futex', f) for f in cexec.FUTEX_SRCS] + ['-o', out + '.tmp%d' % os.getpid(), '-lpthread', '-lm']
+                    r = cexec.run(cmd, cwd=d)
+                    if r.returncode != 0:
+                        raise cexec.InfraError('building the thread-spawn harness failed: %s' % r.stderr.decode(errors='replace')[-1500:])
+                    os.rename(out + '.tmp%d' % os.getpid(), out)
+                finally:
+                    cexec.rm(d)
+    _spawn_cache[key] = out
+    return out
 
 
 def case_spawn(ch):
     return {'kind': 'spawn', 'T': ch.pick((1, 2, 3, 4, 8)), 'K': ch.pick((1, 2, 4, 8, 16)), 'export': ch.below(5) != 0,
-            'tsan': False, 'imported': ch.below(3) == 0, 'depth': ch.pick((0, 0, 1, 2))}
+            'tsan': False, 'imported': ch.below(3) == 0, 'depth': ch.pick((0, 0, 1, 2)),
+            'decoys': ch.pick((0, 0, 0, 1, 2, 3, 4, 5))}
 
 
 def run_spawn(case):
-    exe = spawn_binary(case['export'], case.get('tsan', False), bool(case.get('imported')))
+    exe = spawn_binary(case['export'], case.get('tsan', False), bool(case.get('imported')), case.get('decoys', 0))
     env = dict(os.environ)
     env.update(cexec.ASAN_ENV)
     env['TSAN_OPTIONS'] = 'exitcode=96:halt_on_error=0:report_thread_leaks=0'
@@ -294,6 +321,8 @@ def run_spawn(case):
             logs.append((int(p[1]), int(p[2])))
         elif p[0] == 'N':
             n = int(p[1])
+        elif p[0] == 'X' and int(p[1]):
+            return 'spawn-lookalike', 'an export whose name merely resembles wasi_thread_start was run %s time(s) as thread start function' % p[1]
     if not case['export']:
         for arg, ret in spawns:
             if ret >= 0:
@@ -343,6 +372,8 @@ def classify(case):
     else:
         if case['T'] * case['K'] >= 8:
             out.append('spawn>=8_concurrent')
+        if case.get('decoys'):
+            out.append('spawn_with_lookalike_export_names')
         if not case['export']:
             out.append('spawn_missing_export')
         if case.get('imported'):
